@@ -43,8 +43,10 @@ type propCfg struct {
 	note            string
 }
 
-func q(runs uint64, workers int) tierCfg { return tierCfg{runsPerWorker: runs, workers: workers, budget: 150 * time.Second} }
-func th(d time.Duration) tierCfg      { return tierCfg{runsPerWorker: 1 << 40, workers: 16, budget: d} }
+func q(runs uint64, workers int) tierCfg {
+	return tierCfg{runsPerWorker: runs, workers: workers, budget: 150 * time.Second}
+}
+func th(d time.Duration) tierCfg { return tierCfg{runsPerWorker: 1 << 40, workers: 16, budget: d} }
 
 var props = map[string]propCfg{
 	"C02": {quick: q(4000, 8), thorough: th(10 * time.Minute)},
@@ -128,7 +130,7 @@ func loadKnown(prop string) []known {
 	return out
 }
 
-func build(race bool) (bin string, vreport map[string]any) {
+func build(prop string, race bool) (bin string, vreport map[string]any) {
 	os.MkdirAll(filepath.Join(root, "build"), 0o755)
 	lock, err := os.OpenFile(filepath.Join(root, "build", ".lock"), os.O_CREATE|os.O_RDWR, 0o644)
 	if err != nil {
@@ -152,13 +154,14 @@ func build(race bool) (bin string, vreport map[string]any) {
 	}
 	b, _ := os.ReadFile(filepath.Join(ov, "vinject-report.json"))
 	json.Unmarshal(b, &vreport)
-	bin = filepath.Join(root, "build", "sim.test")
+	lp := strings.ToLower(prop)
+	bin = filepath.Join(root, "build", "sim-"+lp+".test")
 	args := []string{"test", "-c", "-overlay", filepath.Join(ov, "overlay.json"), "-o", bin}
 	if race {
-		bin = filepath.Join(root, "build", "sim-race.test")
+		bin = filepath.Join(root, "build", "sim-"+lp+"-race.test")
 		args = []string{"test", "-c", "-race", "-overlay", filepath.Join(ov, "overlay.json"), "-o", bin}
 	}
-	args = append(args, "./simtest")
+	args = append(args, "./simtest/"+lp)
 	if out, err := run(root, env, "go", args...); err != nil {
 		fatal2("building the simulation binary against /repo failed (build trouble, not a verdict): %v\n%s", err, out)
 	}
@@ -195,7 +198,7 @@ func main() {
 		}
 	}
 	start := time.Now()
-	bin, vreport := build(pc.race)
+	bin, vreport := build(prop, pc.race)
 
 	if *replayPath != "" {
 		os.Exit(doReplay(bin, prop, *replayPath, true))
@@ -476,21 +479,21 @@ func writeEvidence(prop, tier string, seed uint64, t *workerResult, distinct int
 		"rule": "one evaluation = one simulated run (plan drawn from the plan tape, every interleaving/select/map-order decision drawn from the schedule tape). " +
 			"A run is non-trivial when one of the scenario's property-relevant probes fired in it; distinct = number of distinct (scenario, plan tape, schedule signature) hashes among non-trivial runs, " +
 			"where the schedule signature hashes the sequence of (site, chosen task) at decisions with >= 2 alternatives.",
-		"samples":                 samples,
-		"nontrivial_runs":         t.Nontrivial,
-		"decisions":               t.Decisions,
-		"decisions_with_choice":   t.Choices,
-		"simulated_seconds":       t.SimSeconds,
-		"runs_per_hour":           float64(t.Runs) / wall * 3600,
-		"faults_fired":            faults,
-		"probes":                  probes,
-		"runs_per_scenario":       t.PerScenario,
+		"samples":                  samples,
+		"nontrivial_runs":          t.Nontrivial,
+		"decisions":                t.Decisions,
+		"decisions_with_choice":    t.Choices,
+		"simulated_seconds":        t.SimSeconds,
+		"runs_per_hour":            float64(t.Runs) / wall * 3600,
+		"faults_fired":             faults,
+		"probes":                   probes,
+		"runs_per_scenario":        t.PerScenario,
 		"stranded_goroutine_sites": t.Stranded,
-		"known_findings_matched":  knownMatched,
-		"workers":                 tc.workers,
-		"instrumentation":         vreport,
-		"real_components":         "vouch packages under services/ strategies/ util compiled from /repo's working tree through the vinject overlay; BLS/SSZ/wallet libraries real",
-		"stub_components":         "beacon nodes, relays, remote signer/accounts, config source, metrics (null monitor), tracing (no-op); main.go wiring is harness code",
+		"known_findings_matched":   knownMatched,
+		"workers":                  tc.workers,
+		"instrumentation":          vreport,
+		"real_components":          "vouch packages under services/ strategies/ util compiled from /repo's working tree through the vinject overlay; BLS/SSZ/wallet libraries real",
+		"stub_components":          "beacon nodes, relays, remote signer/accounts, config source, metrics (null monitor), tracing (no-op); main.go wiring is harness code",
 	}
 	ev := map[string]any{
 		"property_id": prop,
